@@ -83,7 +83,8 @@ pub struct Cmd {
     #[serde(default)]
     pub override_opt: Option<(String, String)>,
     /// environment of executable runs: bits 0-1 RAYON_NUM_THREADS unset/1/2/7, bit 2 relative paths from the
-    /// scratch directory as working directory, bit 3 a Turkish locale, bit 4 a bare environment (PATH only)
+    /// scratch directory as working directory, bit 3 a Turkish locale, bit 4 a bare environment (PATH only),
+    /// bits 5-6 the process may use only 1 / 2 / 3 CPUs
     #[serde(default)]
     pub env_profile: u8,
 }
@@ -334,8 +335,10 @@ fn run_via_program(cmd: &Cmd, input: &Path, alt: Option<&Path>, out: &Path, stdi
         None
     };
     crate::cli::set_run_env(vars, p & 16 != 0 && !py, cwd);
+    crate::cli::set_run_cpus(((p >> 5) & 3) as usize);
     let r: CliOut = if py { crate::cli::run_py_entry(&args, sd, 120) } else { run_cli(&args, sd, 120) };
     crate::cli::set_run_env(Vec::new(), false, None);
+    crate::cli::set_run_cpus(0);
     let mut o = Outcome {
         code: r.code,
         signal: r.signal,
